@@ -249,3 +249,328 @@ Definition spec_diagonal (t : tensor) : option tensor :=
       else None
   | _ => None
   end.
+
+(* ===================================================================================== *)
+(** * Part 4 — transcription of linear_operator/utils/getitem.py *)
+
+Definition is_noop (it : item) : bool :=
+  match it with ISlice None None None => true | _ => false end.
+Definition is_tensor (it : item) : bool := match it with ITensor _ _ => true | _ => false end.
+Definition is_slice (it : item) : bool := match it with ISlice _ _ _ => true | _ => false end.
+
+(* state of the loop of _compute_getitem_size *)
+Record cgs := mkCgs {
+  c_final : list nat;            (* final_shape (in order) *)
+  c_tidx : option nat;           (* tensor_idx *)
+  c_tsh : list nat;              (* tensor_idx_shape (meaningful when c_tidx <> None) *)
+  c_sat : bool }.                (* slice_after_tensor_idx *)
+
+(* one iteration:  for i, (size, idx) in enumerate(zip(obj.shape, indices))  *)
+Definition cgs_step (debug : bool) (st : cgs) (size : nat) (idx : item) : option cgs :=
+  match idx with
+  | ISlice a b s =>
+      if (negb (is_noop idx)) && (odefault 1 s =? 0) then None     (* slice.indices: ValueError, step 0 *)
+      else
+      let len := if is_noop idx then size else Z.to_nat (slice_len a b s (Z.of_nat size)) in
+      Some (mkCgs (c_final st ++ [len]) (c_tidx st) (c_tsh st)
+                  (match c_tidx st with Some _ => true | None => c_sat st end))
+  | IInt i =>
+      if debug && negb (in_range (Z.of_nat size) i) then None       (* IndexError (debug mode only) *)
+      else Some st
+  | ITensor sh _ =>
+      match c_tidx st with
+      | None => Some (mkCgs (c_final st) (Some (length (c_final st))) sh (c_sat st))
+      | Some ti =>
+          match bcast2 (c_tsh st) sh with
+          | None => None                                            (* IndexError: incompatible tensor indices *)
+          | Some B => Some (mkCgs (c_final st) (if c_sat st then Some 0%nat else Some ti) B (c_sat st))
+          end
+      end
+  end.
+
+Fixpoint cgs_loop (debug : bool) (st : cgs) (shape : list nat) (idx : list item) : option cgs :=
+  match shape, idx with
+  | size :: shape', it :: idx' =>
+      match cgs_step debug st size it with None => None | Some st' => cgs_loop debug st' shape' idx' end
+  | _, _ => Some st          (* zip stops at the shorter one; equal lengths are checked before the loop *)
+  end.
+
+Definition compute_getitem_size (debug : bool) (shape : list nat) (idx : list item) : option (list nat) :=
+  if negb (length shape =? length idx)%nat then None                (* RuntimeError: dimensionality *)
+  else match cgs_loop debug (mkCgs [] None [] false) shape idx with
+       | None => None
+       | Some st =>
+           match c_tidx st with
+           | None => Some (c_final st)
+           | Some ti => Some (firstn ti (c_final st) ++ c_tsh st ++ skipn ti (c_final st))
+           end
+       end.
+
+(* _is_tensor_index_moved_to_start *)
+Fixpoint mts_loop (has cont : bool) (idx : list item) : bool :=
+  match idx with
+  | [] => false
+  | ITensor _ _ :: r => if negb has then mts_loop true cont r
+                        else if negb cont then true else mts_loop has cont r
+  | ISlice _ _ _ :: r => mts_loop has (if has then false else cont) r
+  | IInt _ :: r => mts_loop has cont r
+  end.
+Definition is_moved_to_start (idx : list item) : bool :=
+  match idx with
+  | [] => false                              (* Python: IndexError on indices[0]; never called with () *)
+  | it :: r => if is_tensor it then true else mts_loop false true r
+  end.
+
+(* _pad_with_singletons(t, before, after): shape (1,)*before + t.shape + (1,)*after, same data *)
+Definition pad1 (sh : list nat) (before after : nat) : list nat := repeat 1%nat before ++ sh ++ repeat 1%nat after.
+
+(* torch.arange(0, size)[slice]  as data *)
+Definition arange_slice (a b s : option Z) (size : nat) : list Z :=
+  let '(lo, hi, st) := slice_indices a b s (Z.of_nat size) in
+  map (fun k => lo + Z.of_nat k * st) (seq 0 (Z.to_nat (range_len lo hi st))).
+
+(* state of the loop of _convert_indices_to_tensors *)
+Record cit := mkCit {
+  k_before : nat; k_after : nat;                    (* num_singletons_before / _after *)
+  k_bt : option nat; k_at : option nat }.           (* num_singletons_before_tensor / _after_tensor (None = Python None) *)
+
+Definition odefault_nat (d : nat) (o : option nat) : nat := match o with Some x => x | None => d end.
+
+Definition cit_step (nb : nat) (st : cit) (size : nat) (idx : item) : (list nat * list Z) * cit :=
+  match idx with
+  | ISlice a b s =>
+      let after := (k_after st - 1)%nat in
+      let d := arange_slice a b s size in
+      ((pad1 [length d] (k_before st) after, d), mkCit (S (k_before st)) after (k_bt st) (k_at st))
+  | IInt i => ((pad1 [] (k_before st) (k_after st), [i]), st)
+  | ITensor sh d =>
+      let st' := match k_bt st with
+                 | None => let after := (k_after st - nb)%nat in
+                           mkCit (k_before st + nb) after (Some (k_before st)) (Some after)
+                 | Some _ => st
+                 end in
+      ((pad1 sh (odefault_nat 0 (k_bt st')) (odefault_nat 0 (k_at st')), d), st')
+  end.
+
+Fixpoint cit_loop (nb : nat) (st : cit) (shape : list nat) (idx : list item) : list (list nat * list Z) :=
+  match shape, idx with
+  | size :: shape', it :: idx' => let '(t, st') := cit_step nb st size it in t :: cit_loop nb st' shape' idx'
+  | _, _ => []
+  end.
+
+Definition convert_indices_to_tensors (shape : list nat) (idx : list item) : option (list (list nat * list Z)) :=
+  match bcast_all (flat_map (fun it => match it with ITensor sh _ => [sh] | _ => [] end) idx) [] with
+  | None => None
+  | Some tsh =>
+      let nb := length tsh in
+      let nfinal := (length (filter is_slice idx) + nb)%nat in
+      let moved := is_moved_to_start idx in
+      let st0 := if moved then mkCit nb (nfinal - nb) (Some 0%nat) (Some (nfinal - nb)%nat)
+                 else mkCit 0 nfinal None None in
+      Some (cit_loop nb st0 shape idx)
+  end.
+
+(* ===================================================================================== *)
+(** * Part 5 — transcription of LinearOperator.__getitem__  (on an operator whose _getitem / _get_indices are
+      those of DenseLinearOperator:  self.tensor[batch_indices + (row_index, col_index)]).
+
+      v = Pinned : the code as it stands      v = Fixed : the repaired front end (proposed_fixes/C03-getitem-frontend) *)
+
+Inductive variant := Pinned | Fixed.
+
+Definition variant_eqb (a b : variant) : bool :=
+  match a, b with Pinned, Pinned => true | Fixed, Fixed => true | _, _ => false end.
+
+(* slice(i, i + 1, None)   /   slice(i, i + 1 or None, None) *)
+Definition int_as_slice (v : variant) (i : Z) : item :=
+  match v with
+  | Pinned => ISlice (Some i) (Some (i + 1)) None
+  | Fixed => ISlice (Some i) (if i + 1 =? 0 then None else Some (i + 1)) None
+  end.
+
+(* Tensor.squeeze(dim) for dim = -2 / -1 : removes that dimension iff it has size 1 (otherwise a no-op) *)
+Definition squeeze_back (k : nat) (t : tensor) : tensor :=
+  let sh := tshape t in
+  let n := length sh in
+  if (n <? k)%nat then t
+  else let pos := (n - k)%nat in
+       if (nth pos sh 0 =? 1)%nat then mkT (firstn pos sh ++ skipn (S pos) sh) (tdata t) else t.
+
+(* idx.expand(B).reshape(-1) *)
+Definition flatten_to (B : list nat) (it : item) : item :=
+  match it with
+  | ITensor sh d => ITensor [prod B] (map (fun bc => tget_b sh d B bc) (enum B))
+  | _ => it
+  end.
+
+(* tensor[(t_1, ..., t_n)] with one (mutually broadcasting) index tensor per dimension — the all-tensor case
+   of torch indexing, which is what DenseLinearOperator._get_indices evaluates *)
+Definition gather (t : tensor) (ts : list (list nat * list Z)) : option tensor :=
+  match bcast_all (map fst ts) [] with
+  | None => None
+  | Some B =>
+      if forallb (fun '(n, (sh, d)) => (length d =? prod sh)%nat && forallb (in_range (Z.of_nat n)) d)
+                 (combine (tshape t) ts) && (length ts =? length (tshape t))%nat
+      then Some (mkT B (map (fun bc => tget t (map (fun '(n, (sh, d)) => Z.to_nat (wrap (Z.of_nat n) (tget_b sh d B bc)))
+                                                  (combine (tshape t) ts))) (enum B)))
+      else None
+  end.
+
+(* Tensor.view(new_shape): legal iff the element counts agree (tensors here are contiguous) *)
+Definition view (t : tensor) (sh : list nat) : option tensor :=
+  if (prod sh =? prod (tshape t))%nat then Some (mkT sh (tdata t)) else None.
+
+Definition lnat_eqb' := fix f (a b : list nat) : bool :=
+  match a, b with [], [] => true | x :: r, y :: s => Nat.eqb x y && f r s | _, _ => false end.
+
+Definition getitem_model (v : variant) (debug : bool) (t : tensor) (raw_idx : list raw) : option tensor :=
+  let nd := length (tshape t) in
+  if (nd <? 2)%nat then None else
+  (* ellipsis fill + padding (debug mode: more than one ellipsis is an error; without debug it is outside the domain) *)
+  match spec_expand nd raw_idx with
+  | None => None
+  | Some index =>
+      let batch := firstn (nd - 2) index in
+      let row := nth (nd - 2) index full in
+      let col := nth (nd - 1) index full in
+      let bt := existsb is_tensor batch in
+      let rt := is_tensor row in
+      let ct := is_tensor col in
+      let absorbed := (bt && (rt || ct)) || (negb bt && (rt && ct)) in
+      let to_slice := match v with Pinned => true | Fixed => negb absorbed end in
+      let sq_row := to_slice && match row with IInt _ => true | _ => false end in
+      let sq_col := to_slice && match col with IInt _ => true | _ => false end in
+      let row' := match row with IInt i => if to_slice then int_as_slice v i else row | _ => row end in
+      let col' := match col with IInt i => if to_slice then int_as_slice v i else col | _ => col end in
+      let orig := batch ++ [row'; col'] in
+      let res :=
+        if absorbed then
+          match bcast_all (flat_map (fun it => match it with ITensor sh _ => [sh] | _ => [] end) orig) [] with
+          | None => None
+          | Some B =>
+              let flat := map (flatten_to B) orig in
+              match convert_indices_to_tensors (tshape t) flat with
+              | None => None
+              | Some ts =>
+                  match gather t ts with
+                  | None => None
+                  | Some r =>
+                      if (1 <? length B)%nat then
+                        let rs := tshape r in
+                        if is_moved_to_start orig then view r (B ++ skipn 1 rs)
+                        else match v with
+                             | Pinned => view r (removelast rs ++ B)
+                             | Fixed => let p := count_while is_slice
+                                                   (filter (fun it => negb (match it with IInt _ => true | _ => false end)) orig) in
+                                        view r (firstn p rs ++ B ++ skipn (S p) rs)
+                             end
+                      else Some r
+                  end
+              end
+          end
+        else torch_index_norm t orig in
+      match res with
+      | None => None
+      | Some r =>
+          let r1 := if sq_row then squeeze_back 2 r else r in
+          let r2 := if sq_col then squeeze_back 1 r1 else r1 in
+          if debug then
+            match compute_getitem_size debug (tshape t) index with
+            | None => None
+            | Some expected => if lnat_eqb' expected (tshape r2) then Some r2 else None
+            end
+          else Some r2
+      end
+  end.
+
+(* ===================================================================================== *)
+(** * Part 6 — per-class index arithmetic of _get_indices / _getitem (element level: one (row, col) pair;
+      the library applies the same arithmetic element-wise to index tensors) *)
+
+(* --- ToeplitzLinearOperator._get_indices:  (row_index - col_index).fmod(self.size(-1)).abs() *)
+Definition toeplitz_index (n r c : Z) : Z := Z.abs (fmod (r - c) n).
+
+(* --- KroneckerProductLinearOperator._get_indices: running factor,  floor_div(idx, factor).fmod(sub_size) *)
+Fixpoint kron_digits (sizes : list Z) (factor x : Z) : list Z :=
+  match sizes with
+  | [] => []
+  | s :: r => let f := py_div factor s in fmod (py_div x f) s :: kron_digits r f x
+  end.
+Fixpoint zprod (l : list Z) : Z := match l with [] => 1 | x :: r => x * zprod r end.
+(* factors are given by their entry functions; res = prod_k factor_k[row digit k, col digit k] *)
+Fixpoint prod_entries (fs : list (Z -> Z -> Z)) (rd cd : list Z) : Z :=
+  match fs, rd, cd with
+  | f :: fs', r :: rd', c :: cd' => f r c * prod_entries fs' rd' cd'
+  | _, _, _ => 1
+  end.
+Definition kron_get_indices (ms ns : list Z) (fs : list (Z -> Z -> Z)) (r c : Z) : Z :=
+  prod_entries fs (kron_digits ms (zprod ms) r) (kron_digits ns (zprod ns) c).
+
+(* --- BlockDiagLinearOperator._get_indices (base block size m x n; base b i j = entry (i, j) of block b) *)
+Definition blockdiag_get_indices (m n : Z) (base : Z -> Z -> Z -> Z) (r c : Z) : Z :=
+  let rb := py_div r m in let cb := py_div c n in
+  base rb (fmod r m) (fmod c n) * (if rb =? cb then 1 else 0).
+
+(* --- BlockInterleavedLinearOperator._get_indices (k = number of blocks) *)
+Definition blockinterleaved_get_indices (k : Z) (base : Z -> Z -> Z -> Z) (r c : Z) : Z :=
+  let rb := fmod r k in let cb := fmod c k in
+  base rb (py_div r k) (py_div c k) * (if rb =? cb then 1 else 0).
+
+(* --- BatchRepeatLinearOperator._get_indices:  batch_index.fmod(size)  *)
+Definition batchrepeat_index (size b : Z) : Z := fmod b size.
+
+(* --- DiagLinearOperator._get_indices:  diag[row] * (row == col) *)
+Definition diag_get_indices (d : Z -> Z) (r c : Z) : Z := d r * (if r =? c then 1 else 0).
+
+(* --- MaskedLinearOperator._get_indices:  torch.arange(n)[mask]  (positions of the True entries) *)
+Fixpoint mask_positions (mask : list bool) (i : Z) : list Z :=
+  match mask with [] => [] | b :: r => (if b then [i] else []) ++ mask_positions r (i + 1) end.
+
+(* --- CatLinearOperator.__init__: cat_dim_cum_sizes, idx_to_tensor_idx *)
+Fixpoint cum_sizes (sizes : list nat) (acc : nat) : list nat :=
+  match sizes with [] => [acc] | s :: r => acc :: cum_sizes r (acc + s) end.
+Fixpoint idx_table (sizes : list nat) (k : nat) : list nat :=
+  match sizes with [] => [] | s :: r => repeat k s ++ idx_table r (S k) end.
+
+(* CatLinearOperator._get_indices on the concatenated dimension: (component, index inside the component) *)
+Definition cat_locate (sizes : list nat) (x : nat) : nat * nat :=
+  let k := nth x (idx_table sizes 0) 0%nat in (k, (x - nth k (cum_sizes sizes 0) 0)%nat).
+
+(* the run splitting of _get_indices / _getitem with a 1-d tensor on the concatenated dimension:
+   maximal runs of consecutive entries that hit the same component *)
+Fixpoint runs_aux (tbl : nat -> nat) (cur : nat) (acc : list nat) (l : list nat) : list (nat * list nat) :=
+  match l with
+  | [] => [(cur, rev acc)]
+  | x :: r => if (tbl x =? cur)%nat then runs_aux tbl cur (x :: acc) r
+              else (cur, rev acc) :: runs_aux tbl (tbl x) [x] r
+  end.
+Definition runs (tbl : nat -> nat) (l : list nat) : list (nat * list nat) :=
+  match l with [] => [] | x :: r => runs_aux tbl (tbl x) [x] r end.
+
+(* CatLinearOperator._split_slice for a step-less slice: the (component, local start, local stop) pieces.
+   Pinned: start % cat_size, stop % cat_size.   Fixed: slice.indices(cat_size). *)
+Definition split_bounds (v : variant) (a b : option Z) (size : Z) : Z * Z :=
+  match v with
+  | Pinned => (match a with Some x => py_mod x size | None => 0 end,
+               match b with Some x => py_mod x size | None => size end)
+  | Fixed => let '(lo, hi, _) := slice_indices a b None size in (lo, hi)
+  end.
+
+(* Python list indexing with a possibly negative int (torch tensor indexing of the 1-d helper tables) *)
+Definition nth_py (l : list nat) (i : Z) : nat :=
+  nth (Z.to_nat (wrap (Z.of_nat (length l)) i)) l 0%nat.
+
+Definition split_slice (v : variant) (sizes : list nat) (a b : option Z) : list (nat * Z * Z) :=
+  let total := Z.of_nat (fold_right Nat.add 0%nat sizes) in
+  let '(start, stop) := split_bounds v a b total in
+  let tbl := idx_table sizes 0 in
+  let cum := cum_sizes sizes 0 in
+  let first := nth_py tbl start in
+  let last := nth_py tbl (stop - 1) in
+  let fstart := start - Z.of_nat (nth first cum 0%nat) in
+  let lstop := stop - Z.of_nat (nth last cum 0%nat) in
+  if (last <? first)%nat then []        (* zip(range(first, last + 1), ...) is empty *)
+  else if (first =? last)%nat then [(first, fstart, lstop)]
+  else (first, fstart, Z.of_nat (nth first sizes 0%nat))
+       :: map (fun k => (k, 0, Z.of_nat (nth k sizes 0%nat))) (seq (S first) (last - first - 1))
+       ++ [(last, 0, lstop)].
